@@ -19,8 +19,9 @@ EXPLANATION = ("(A) the operator semantics of the model satisfy the documented i
                "that owns the generator's trees (no parsing) is compared with the implementation")
 TRUSTED = ["modelled, not verified: ast.unparse normal form and required_variables of Python fragments (oracles)",
            "the reference evaluator of the documented algebra in harness/vp/parsergen.py (used as the search/direct oracle, not in any theorem)"]
-ASSUMPTIONS = ["end-to-end theorem `parse_denotes` (print of a tree -> documented denotation) is not mechanised; layers A and B are, the lexical "
-               "rewriting layer is covered by correspondence and by the reference evaluator"]
+ASSUMPTIONS = ["`C01_tokens_denote` composes parsing and evaluation from the TOKEN sequence of an inner expression tree to its denotation; the characters -> tokens "
+               "step (tokenizer, 0 -> -1 rewriting, intercept insertion, sign-run collapsing) and the top-level '~' / '|' assembly are covered by the "
+               "correspondence on whole strings and by the reference evaluator, not by that theorem"]
 
 
 def _known_tags(s, intercept):
